@@ -150,7 +150,7 @@ class World:
             self.entry[root] = dec.decode
 
     def decode(self, root, d, fmt="dict"):
-        from mashumaro.exceptions import InvalidFieldValue, MissingDiscriminatorError, SuitableVariantNotFoundError
+        from mashumaro.exceptions import InvalidFieldValue, MissingDiscriminatorError, MissingField, SuitableVariantNotFoundError
 
         self.make(root)
         try:
@@ -161,9 +161,13 @@ class World:
                 return "missing"
             if isinstance(c, SuitableVariantNotFoundError):
                 return "novariant"
+            if isinstance(c, MissingField):
+                return f"missingfield:{c.field_name}"
             if type(c) is ValueError and "should be a dict instance" in str(c):
                 return "notadict"
             return f"error:{type(c).__name__}:{c}"[:160]
+        except MissingField as e:
+            return f"missingfield:{e.field_name}"
         except MissingDiscriminatorError:
             return "missing"
         except SuitableVariantNotFoundError:
@@ -227,7 +231,7 @@ def gen_history(rng, tier):
                 t = rng.choice(list(tags.values()))
             else:
                 t = f"t{nxt}"
-            req = (not field) and rng.random() < 0.7
+            req = rng.random() < (0.7 if not field else 0.3)   # a required member f<i> of its own
             # Config.discriminator dispatches only on classes that declare the Config themselves
             # and such a class only dispatches to its strict subclasses (include_supertypes is not
             # available at class level), so it is generated as an untagged intermediate root
@@ -328,9 +332,8 @@ def real_history(ctx, h, idx):
                     d["type"] = ["t1"]
                 elif t is not None:
                     d["type"] = t
-                if not h["field"]:
-                    for f in e["fields"]:
-                        d[f"f{f}"] = f
+                for f in e["fields"]:
+                    d[f"f{f}"] = f
                 for a in parents:
                     d[f"g{a}"] = 7
                 if t == "__nonmapping__":
@@ -397,6 +400,8 @@ def judge_formats(ctx, rec, mf):
     qs = [e for e in h["events"] if "q" in e]
     reals = [r for e, r in zip(qs, rec["real"]) if e["q"][1] not in ("__nonmapping__", "__unhashable__")]
     for k, (o, r) in enumerate(zip(mf["outs"], reals)):
+        if r.startswith("missingfield:"):
+            continue   # judged against the statement in `judge`
         if o.startswith("inst:"):
             _i, c, b = o.split(":")
             exp = f"inst:{c}" if c == b else "error:instance of"
@@ -450,6 +455,14 @@ def judge(ctx, rec, out):
         root, t = e["q"]
         r, m, s = real[qi], impl[qi], spec[qi]
         qi += 1
+        if h["field"] and s.startswith("inst:") and t not in ("__nonmapping__", "__unhashable__"):
+            # the chosen class is then deserialized like any class: a required member without a key is reported by
+            # MissingField naming it (C05) — also on the very first dispatch to that tag
+            par = {c[0]: c[1] for c in seen}
+            reqd = {ev["d"][0] for ev in h["events"][:k] if "d" in ev and ev.get("req")}
+            need = [a for a in reversed(chain(par, int(s.split(":")[1]))) if a in reqd and a not in e["fields"]]
+            if need:
+                m = s = f"missingfield:f{need[0]}"
         if t == "__nonmapping__":
             # ValueError for a non-mapping argument (C05), whatever the registry holds
             m = s = "notadict"
